@@ -215,7 +215,7 @@ class Tessellations(ProductSystem):
 def build(tier, seed):
     sizes = [[4, 4], [3, 3], [3, 5], [6, 6], [5, 4]]
     if tier == "quick":
-        return [Tessellations("lattices-d2", ["square", "hex", "hexflat", "jit", "rand", "tri"], 2, sizes),
+        return [Tessellations("lattices-d3", ["square", "hex", "hexflat", "jit", "rand", "tri"], 3, sizes),
                 Tessellations("large", ["jit", "hex", "rand"], 1, [[20, 15], [17, 12]])]
     return [Tessellations("lattices-d3", ["square", "hex", "hexflat", "jit", "rand", "tri"], 3, sizes + [[10, 10], [8, 3]]),
             Tessellations("large", ["jit", "hex", "square"], 2, [[20, 15], [17, 12]])]
